@@ -83,6 +83,19 @@ def oracle_consistency(case):
     d1 = describe(value(select_copula, Xarg, what='select_copula (same array object again)'))
     np.random.set_state(st0)
     require(d1 == d0, 'select_copula is not deterministic: %r then %r on the same data' % (d0, d1), tag='determinism')
+    # a function of X alone: a slightly different array (the second coordinates of two rows exchanged, so Kendall's tau
+    # moves by a few 1e-4 at most) must get its own calibration, not anything remembered from the call above
+    if len(X) >= 4 and abs(tau) < 0.99:
+        i, j = (case['rng'] % len(X)), ((case['rng'] // 7 + 1) % len(X))
+        X2 = X.copy()
+        X2[[i, j], 1] = X2[[j, i], 1]
+        kind2, tau2 = c10.expected(X2)
+        if kind2 == 'tau' and abs(tau2) < 0.99:
+            k2, cop2 = call(select_copula, X2.copy(), allow=(ValueError,), what='select_copula (neighbouring array)')
+            require(k2 == 'ok', 'select_copula raised %s for valid data with tau=%r' % (cop2, tau2), tag='spurious-refusal')
+            require(abs(float(cop2.tau) - tau2) <= 1e-15, 'select_copula on a neighbouring array: tau=%r, Kendall tau-b is %r (the previous array had %r)'
+                    % (cop2.tau, tau2, tau), tag='tau')
+            c10.check_fitted(type(cop2).__name__.lower(), cop2, X2, tau2)
     import warnings
 
     with warnings.catch_warnings():
